@@ -31,7 +31,8 @@ ASSUMPTIONS = [
     "with a fresh map are required, undefined (NaN) coordinates included",
 ]
 
-REJECT_KINDS = ["other", "samename-atoms", "samename-count", "returned", "none", "str", "ndarray", "residue"]
+REJECT_KINDS = ["other", "samename-atoms", "samename-count", "returned", "none", "str", "ndarray", "residue", "label-twin",
+                "case-twin"]
 
 
 @st.composite
@@ -197,6 +198,32 @@ def check(case):
                 sp = dict(rspec)
                 sp["residues"] = [[rn, ri, [nm + "x" if (r, i) == (0, 0) else nm for i, nm in enumerate(names)]]
                                   for r, (rn, ri, names) in enumerate(rspec["residues"])]
+                bad = build_molecule(sp)
+            elif what == "label-twin":
+                # another species whose only difference is one residue's (number, name) pair - chosen so that number
+                # and name glued together read the same: 12 + "MA" against 1 + "2MA"
+                sp = dict(rspec)
+                res = [list(r) for r in rspec["residues"]]
+                for r in res:
+                    if r[1] >= 10 and len(r[0]) <= 4:
+                        r[0], r[1] = str(r[1] % 10) + r[0], r[1] // 10
+                        break
+                    if r[0][0].isdigit() and len(r[0]) > 1 and r[1] < 9999:
+                        r[0], r[1] = r[0][1:], int(str(r[1]) + r[0][0])
+                        break
+                else:
+                    continue
+                sp["residues"] = res
+                bad = build_molecule(sp)
+            elif what == "case-twin":
+                # ... or the case of one atom name
+                sp = dict(rspec)
+                res = [[r[0], r[1], list(r[2])] for r in rspec["residues"]]
+                nm = res[-1][2][-1]
+                if nm.swapcase() == nm:
+                    continue
+                res[-1][2][-1] = nm.swapcase()
+                sp["residues"] = res
                 bad = build_molecule(sp)
             elif what == "samename-count":
                 bad = build_molecule(dict(tspec, name=rspec["name"]))
